@@ -3,7 +3,20 @@ from __future__ import annotations
 
 import itertools
 
-from .common import add_failure, bump, new_outcome
+from .common import add_failure as _add_failure
+from .common import bump, new_outcome
+
+MAX_PER_SIG = 6
+
+
+def add_failure(out, kind, what, inp, expected, got, confirmed=True, sig=None):
+    """keep at most MAX_PER_SIG failures per signature so one class cannot hide another"""
+    key = f"{kind}:{sig or what}"
+    cnt = out.setdefault("_sigcount", {})
+    cnt[key] = cnt.get(key, 0) + 1
+    bump(out, "failure_sigs", key)
+    if cnt[key] <= MAX_PER_SIG:
+        _add_failure(out, kind, what, inp, expected, got, confirmed=confirmed, sig=sig, maxkeep=400)
 
 PROP = "C08"
 PROPS_FILES = ["CogentModel/Props/C08.lean"]
@@ -270,7 +283,9 @@ def correspondence(ctx):
     for n in range(0, 6):
         for bits in itertools.product("01", repeat=n):
             pat = "".join(bits)
-            small[pat] = _from_pattern(pat)[1]
+            # rebuilt with integer arrays: parse_out_gaps hands a float64 array to gapless maps, which only
+            # numpy's casting rules (not modelled) care about; the spec-level differential uses the originals
+            small[pat] = _mk_real(_mapd(_from_pattern(pat)[1]))
     breqs, breal = [], []
 
     def add_bin(op, pa, pb, f, conv, extra=None):
@@ -300,7 +315,7 @@ def correspondence(ctx):
         n = rng.randint(6, 40)
         pa, pb = _rand_pattern(rng, n), _rand_pattern(rng, n)
         for p in (pa, pb):
-            small.setdefault(p, _from_pattern(p)[1])
+            small.setdefault(p, _mk_real(_mapd(_from_pattern(p)[1])))
         add_bin("minus", pa, pb, lambda a, b: a.minus_gaps(b), _mapd)
         add_bin("shared", pa, pb, lambda a, b: a.shared_gaps(b), pairs_conv)
         add_bin("add", pa, pb, lambda a, b: a + b, _mapd)
@@ -318,7 +333,7 @@ def correspondence(ctx):
     # ---- 4. joined_segments / mul / from_aligned_segments / gap_coords_to_map --
     jreqs, jreal = [], []
     for pat in pats + [_rand_pattern(rng, rng.randint(6, 40)) for _ in range(ctx.budget(200, 2000))]:
-        m = small.get(pat) or _from_pattern(pat)[1]
+        m = small.get(pat) or _mk_real(_mapd(_from_pattern(pat)[1]))
         n = len(pat)
         md = _mapd(m)
         coordsets = []
@@ -641,6 +656,57 @@ def _within_parent(m):
     )
 
 
+def _sem_diff(r, want_s):
+    """None if the map r (a dict {"err":..} or a real IndelMap) denotes the gapped string want_s:
+    same length, same residue count, spans rebuild the string, every index conversion agrees with
+    scanning want_s.  Representation (duplicate gap positions etc.) is not compared."""
+    if isinstance(r, dict):
+        return r
+    n = len(want_s)
+    resid = want_s.replace("-", "")
+    try:
+        if len(r) != n:
+            return f"len {len(r)} != {n}"
+        if int(r.parent_length) != len(resid):
+            return f"parent_length {int(r.parent_length)} != {len(resid)}"
+        got = _string_of(r, resid)
+        if got != want_s:
+            return f"spans rebuild {got!r}"
+        if not _within_parent(r):
+            return "coordinates outside parent"
+        for i in range(n + 1):
+            if int(r.get_seq_index(i)) != len(want_s[:i].replace("-", "")):
+                return f"get_seq_index({i})"
+        cols = [i for i, c in enumerate(want_s) if c != "-"]
+        for k in range(len(cols)):
+            if int(r.get_align_index(k)) != cols[k]:
+                return f"get_align_index({k})"
+            if int(r.get_align_index(k, slice_stop=True)) != (cols[k - 1] + 1 if k else 0):
+                return f"get_align_index({k}, slice_stop=True)"
+    except CATCH as e:
+        return f"observer raised {type(e).__name__}"
+    return None
+
+
+def _result_ok(out, f, want_s, what, sig, inp):
+    """run f() -> IndelMap and compare with the map of want_s: canonical form first (cheap), meaning second"""
+    try:
+        r = f()
+    except CATCH as e:
+        add_failure(out, "spec", what + " (raised)", inp, _canon(want_s), _err(e), sig=sig + ":raise:" + type(e).__name__)
+        return False
+    want = _canon(want_s)
+    got = _mapd(r)
+    if got == want:
+        return True
+    d = _sem_diff(r, want_s)
+    if d is None:
+        bump(out, "noncanonical_but_equivalent", sig)
+        return True
+    add_failure(out, "spec", what, dict(inp, why=d), want, got, sig=sig)
+    return False
+
+
 def _check_layout(out, s, ivs, deep):
     """all C08 clauses about one gapped string s; ivs = intervals to slice by"""
     import cogent3
@@ -721,9 +787,7 @@ def _check_layout(out, s, ivs, deep):
         if got != want:
             fail("get_align_index(slice_stop=True) is not one past the previous residue's column", "align_index_stop", want, got, index=k)
     # reversal
-    got = _try(lambda: m.nucleic_reversed(), _mapd)
-    if got != _canon(s[::-1]):
-        fail("nucleic_reversed differs from the map of the reversed string", "reversed", _canon(s[::-1]), got)
+    _result_ok(out, lambda: m.nucleic_reversed(), s[::-1], "nucleic_reversed differs from the map of the reversed string", "reversed", inp)
     # slicing by every interval
     for a, b in ivs:
         out["evaluations"] += 1
@@ -743,14 +807,16 @@ def _check_layout(out, s, ivs, deep):
             continue
         got = _mapd(r)
         if got != want:
+            d = _sem_diff(r, sub)
+            if d is None:
+                bump(out, "noncanonical_but_equivalent", "getitem")
+                continue
             beyond = (b is not None and b > n) or (a is not None and a > n)
             fail(
                 "m[a:b] is not the map of s[a:b]",
-                f"getitem:{'stop-beyond-len' if beyond else 'in-range'}:{lc if not beyond else 'any'}",
-                want, got, a=a, b=b,
+                f"getitem:{'stop-beyond-len' if beyond else 'in-range:' + lc}",
+                want, got, a=a, b=b, why=d,
             )
-        elif not _within_parent(r):
-            fail("slice result has coordinates outside its parent", "getitem-bounds", want, got, a=a, b=b)
         else:
             bump(out, "spec_getitem", "ok")
             if want["gp"]:
@@ -769,15 +835,14 @@ def _spec_binary(out, s, t, ma, mb):
         add_failure(out, "spec", what, inp, expected, got, sig=sig)
 
     out["evaluations"] += 1
-    got = _try(lambda: ma + mb, _mapd)
-    if got != _canon(s + t):
-        fail("a + b is not the map of the concatenated string", "add", _canon(s + t), got)
+    ends_gap = s.endswith("-") and t.startswith("-")
+    _result_ok(out, lambda: ma + mb, s + t, "a + b is not the map of the concatenated string",
+               "add:" + ("gap-meets-gap" if ends_gap else "other"), inp)
     if len(s) == len(t):
         both = [i for i in range(len(s)) if s[i] == "-" and t[i] == "-"]
         want = "".join(c for i, c in enumerate(s) if i not in both)
-        got = _try(lambda: ma.minus_gaps(mb), _mapd)
-        if got != _canon(want):
-            fail("minus_gaps is not the map of the string without the shared gap columns", "minus_gaps", _canon(want), got)
+        _result_ok(out, lambda: ma.minus_gaps(mb), want,
+                   "minus_gaps is not the map of the string without the shared gap columns", "minus_gaps", inp)
         runs = []
         for i in both:
             if runs and runs[-1][1] == i:
@@ -787,7 +852,7 @@ def _spec_binary(out, s, t, ma, mb):
         got = _try(lambda: ma.shared_gaps(mb), lambda r: [[int(x), int(y)] for x, y in r.tolist()])
         if got != runs:
             fail("shared_gaps is not the runs of columns gapped in both strings", "shared_gaps", runs, got)
-    if s.replace("-", "") == t.replace("-", "") or len(s.replace("-", "")) == len(t.replace("-", "")):
+    if len(s.replace("-", "")) == len(t.replace("-", "")):
         # same underlying sequence: merged map has, before each residue, the gaps of both
         def gaps_before(x):
             res, c = [], 0
@@ -802,9 +867,9 @@ def _spec_binary(out, s, t, ma, mb):
         ga, gb = gaps_before(s), gaps_before(t)
         resid = s.replace("-", "")
         want = "".join("-" * (ga[i] + gb[i]) + (resid[i] if i < len(resid) else "") for i in range(len(ga)))
-        got = _try(lambda: ma.merge_maps(mb), _mapd)
-        if got != _canon(want):
-            fail("merge_maps is not the map carrying both gap sets", "merge_maps", _canon(want), got)
+        nog = "no-gaps-operand" if ("-" not in s or "-" not in t) else "both-gapped"
+        _result_ok(out, lambda: ma.merge_maps(mb), want, "merge_maps is not the map carrying both gap sets",
+                   "merge_maps:" + nog, inp)
 
 
 def _spec_fmap(out, rng, count):
@@ -954,19 +1019,14 @@ def spec_check(ctx, budget):
         k = rng.randint(1, 3)
         c = sorted(rng.sample(range(0, n + 1), 2 * k))
         cs = [(c[2 * i], c[2 * i + 1]) for i in range(k)]
-        want = _canon("".join(s[a:b] for a, b in cs))
-        got = _try(lambda: m.joined_segments(cs), _mapd)
-        if got != want:
-            add_failure(out, "spec", "joined_segments is not the map of the joined slices", dict(s=s, coords=cs), want, got, sig="joined_segments")
+        _result_ok(out, lambda: m.joined_segments(cs), "".join(s[a:b] for a, b in cs),
+                   "joined_segments is not the map of the joined slices", "joined_segments", dict(s=s, coords=cs))
         sc = rng.choice([2, 3])
-        want = _canon("".join(ch * sc for ch in s))
-        got = _try(lambda: m * sc, _mapd)
-        if got != want:
-            add_failure(out, "spec", "m * k is not the map of the k-fold stretched string", dict(s=s, k=sc), want, got, sig="mul")
+        _result_ok(out, lambda: m * sc, "".join(ch * sc for ch in s), "m * k is not the map of the k-fold stretched string", "mul", dict(s=s, k=sc))
         locs = [(sp.start, sp.end) for sp in m.nongap()]
-        got = _try(lambda: IndelMap.from_aligned_segments(locs, n), _mapd)
-        if got != _canon(s):
-            add_failure(out, "spec", "from_aligned_segments(nongap) does not rebuild the map", dict(s=s), _canon(s), got, sig="from_aligned_segments")
+        if "-" in s:
+            _result_ok(out, lambda: IndelMap.from_aligned_segments(locs, n), s,
+                       "from_aligned_segments(nongap) does not rebuild the map", "from_aligned_segments", dict(s=s))
     # binary ops: all pairs of short layouts
     names = sorted(keep, key=lambda x: (len(x), x))
     for s in names:
@@ -982,10 +1042,8 @@ def spec_check(ctx, budget):
             for c in itertools.combinations(range(0, n + 1), 2 * k):
                 cs = [(c[2 * i], c[2 * i + 1]) for i in range(k)]
                 out["evaluations"] += 1
-                want = _canon("".join(s[a:b] for a, b in cs))
-                got = _try(lambda: keep[s].joined_segments(cs), _mapd)
-                if got != want:
-                    add_failure(out, "spec", "joined_segments is not the map of the joined slices", dict(s=s, coords=cs), want, got, sig="joined_segments")
+                _result_ok(out, lambda: keep[s].joined_segments(cs), "".join(s[a:b] for a, b in cs),
+                           "joined_segments is not the map of the joined slices", "joined_segments", dict(s=s, coords=cs))
     _spec_fmap(out, rng, 1500 * budget)
     return out
 
@@ -994,19 +1052,27 @@ def spec_check(ctx, budget):
 # findings
 # --------------------------------------------------------------------------
 def match_finding(f, k):
+    """a known finding explains a failure only if the signature is listed AND the input is in the finding's class"""
     if f.get("sig") not in k.get("sigs", []):
         return False
     r = k.get("restrict") or {}
     inp = f.get("input") or {}
+    s = inp.get("s", "")
     if r.get("stop_beyond_len"):
-        s = inp.get("s", "")
         a, b = inp.get("a"), inp.get("b")
         if not ((b is not None and b > len(s)) or (a is not None and a > len(s))):
             return False
     if r.get("min_gap_runs"):
-        s = inp.get("s", "")
-        runs = len([x for x in s.replace("-", " ").split() if x]) if False else _count_runs(s)
-        if runs < r["min_gap_runs"] or not s or s[-1] == "-":
+        if _count_runs(s) < r["min_gap_runs"] or not s or s[-1] == "-":
+            return False
+    if r.get("gapless"):
+        if "-" in s:
+            return False
+    if r.get("gapless_operand"):
+        if "-" in s and "-" in inp.get("t", ""):
+            return False
+    if r.get("gap_meets_gap"):
+        if not (s.endswith("-") and inp.get("t", "").startswith("-")):
             return False
     return True
 
@@ -1016,39 +1082,35 @@ def _count_runs(s):
 
 
 def _replay_case(inp, sig):
-    """re-run one recorded spec failure on the real code; True if it still fails"""
+    """re-run the clauses about one recorded input on the real code; the failure with signature `sig` or None"""
     import cogent3
 
+    out = new_outcome()
+    if "spans" in inp:
+        return None
     s = inp.get("s")
     if s is None:
         return None
-    m, seq = cogent3.make_seq(s, moltype="dna").parse_out_gaps()
-    if sig.startswith("getitem"):
-        a, b = inp.get("a"), inp.get("b")
-        got = _try(lambda: m[a:b], _mapd)
-        return (got != _canon(s[a:b])), _canon(s[a:b]), got
-    if sig.startswith("get_coordinates"):
-        sq, k, i, n = [], 0, 0, len(s)
-        while i < n:
-            j = i
-            while j < n and (s[j] == "-") == (s[i] == "-"):
-                j += 1
-            if s[i] != "-":
-                sq.append([k, k + j - i])
-                k += j - i
-            i = j
-        got = [[int(a), int(b)] for a, b in m.get_coordinates() if a != b]
-        return (got != sq), sq, got
+    if "t" in inp:
+        ma = cogent3.make_seq(s, moltype="dna").parse_out_gaps()[0]
+        mb = cogent3.make_seq(inp["t"], moltype="dna").parse_out_gaps()[0]
+        _spec_binary(out, s, inp["t"], ma, mb)
+    elif "coords" in inp:
+        m = cogent3.make_seq(s, moltype="dna").parse_out_gaps()[0]
+        cs = [tuple(c) for c in inp["coords"]]
+        _result_ok(out, lambda: m.joined_segments(cs), "".join(s[a:b] for a, b in cs),
+                   "joined_segments is not the map of the joined slices", "joined_segments", dict(s=s, coords=cs))
+    else:
+        ivs = [(inp.get("a"), inp.get("b"))] if ("a" in inp or "b" in inp) else []
+        _check_layout(out, s, ivs, True)
+    for f in out["failures"]:
+        if f["sig"] == sig:
+            return f
     return None
 
 
 def check_witness(ctx, w):
-    out = new_outcome()
-    r = _replay_case(w, w["sig"])
-    if r and r[0]:
-        add_failure(out, "spec", w.get("what", "known finding witness"), {k: v for k, v in w.items() if k not in ("sig", "what")}, r[1], r[2], sig=w["sig"])
-        return out["failures"][0]
-    return None
+    return _replay_case(w, w["sig"])
 
 
 def replay(ctx, data):
@@ -1056,23 +1118,10 @@ def replay(ctx, data):
     inp, sig = f.get("input"), f.get("sig", "")
     if not inp:
         return False
+    if "spans" in inp:
+        print("feature-map case: re-run ./check C08 (random stream is seeded)", inp)
+        return True
     r = _replay_case(inp, sig)
-    if r is None:
-        # fall back: re-run the whole layout check on the recorded string(s)
-        out = new_outcome()
-        if "s" in inp and "t" in inp:
-            import cogent3
-
-            ma = cogent3.make_seq(inp["s"], moltype="dna").parse_out_gaps()[0]
-            mb = cogent3.make_seq(inp["t"], moltype="dna").parse_out_gaps()[0]
-            _spec_binary(out, inp["s"], inp["t"], ma, mb)
-        elif "s" in inp:
-            n = len(inp["s"])
-            vals = [None] + list(range(-n - 2, n + 3))
-            _check_layout(out, inp["s"], [(a, b) for a in vals for b in vals], True)
-        elif "spans" in inp:
-            print("feature-map case", inp)
-            return True
-        return any(x["sig"] == sig for x in out["failures"])
-    print("expected", r[1], "got", r[2])
-    return r[0]
+    if r:
+        print("expected", r["expected"], "got", r["got"])
+    return r is not None
